@@ -295,7 +295,8 @@ def sub_traj(case):
         argv += ["--transform_right" if tf["right"] else "--transform_left", tpath]
         if tf["invert"]:
             argv.append("--invert_transform")
-        if tf["right"] and tf["propagate"]:
+        if tf["propagate"]:
+            # documented for --transform_right only ("with --transform_right: ..."): a left transformation stays T*pose
             argv.append("--propagate_transform")
     for key, flag in (("align", "--align"), ("correct_scale", "--correct_scale"), ("align_origin", "--align_origin"), ("sync", "--sync"), ("merge", "--merge")):
         if o.get(key):
